@@ -23,12 +23,12 @@ RULE = ("a case is one store of 0-12 entries (real cached calls of 1-2 functions
         "(sizes, ages, limits) stores in which at least one entry was evicted and at least one limit was given")
 ASSUMPTIONS = [
     "no concurrent writer; the check's own stat scan immediately before the call is the inventory",
-    "age deadlines are kept >= 60 s away from every entry so that the clock read inside the call cannot flip a verdict",
+    "age deadlines are kept >= 60 s away from every entry so that the clock read inside the call cannot flip a verdict, except for one deliberately placed entry 0.45 s from a fractional deadline (cases slower than 0.35 s are discarded)",
     "ties in access time may be broken either way",
     "an entry's size is the sum of the sizes of the files in its directory (what the store reports)",
 ]
 SHARDS = {"quick": 12, "thorough": 14}
-FLOORS = {"quick": {"contract_evaluations_in_repo_tests": 8, "conclusive": 2000, "stores_with_eviction": 600, "survivor_hits_checked": 2000, "evicted_recomputed_checked": 1500},
+FLOORS = {"quick": {"fractional_age_limit_cases": 30, "contract_evaluations_in_repo_tests": 8, "conclusive": 2000, "stores_with_eviction": 600, "survivor_hits_checked": 2000, "evicted_recomputed_checked": 1500},
           "thorough": {"contract_evaluations_in_repo_tests": 8, "conclusive": 30000, "stores_with_eviction": 10000, "survivor_hits_checked": 30000, "evicted_recomputed_checked": 25000}}
 
 CALLS = []
@@ -131,6 +131,18 @@ def run_case(case, ctx):
             ages[p] = a
             target = os.path.join(p, "output.pkl") if p in dirs else p
             os.utime(target, (now - a, now - a))
+        # fractional age limits: one entry is placed 0.45 s past a whole number of seconds A and the age limit is
+        # A + 0.9 s (the entry must survive) or A + 0.1 s (it must go); everything else stays >= 60 s away
+        frac = None
+        real = [p for p in all_dirs if p in dirs]
+        if real and rng.random() < 0.25:
+            tp = rng.choice(real)
+            A = int(ages[tp])
+            if all(abs(ages[q] - A) >= 60 for q in all_dirs if q != tp):
+                T0 = time.time()
+                os.utime(os.path.join(tp, "output.pkl"), (T0 - A - 0.45, T0 - A - 0.45))
+                ages[tp] = A + 0.45
+                frac = dict(path=tp, A=A, T0=T0, limit=A + rng.choice([0.9, 0.9, 0.1]))
         inv = scan(d)
         if set(inv) != set(all_dirs):
             ctx.inconclusive("inventory-mismatch", dict(inv=sorted(inv), expected=sorted(all_dirs)))
@@ -162,6 +174,8 @@ def run_case(case, ctx):
         age = rng.choice(age_choices)
         if age is not None and age != 0 and any(abs(a - age) < 60 for a in ages.values()):
             age = None
+        if frac is not None:
+            age = frac["limit"]
         ctx.evaluated()
         t_before = time.time()
         err = None
@@ -173,6 +187,11 @@ def run_case(case, ctx):
         except Exception as e:  # noqa
             err = f"{type(e).__name__}: {e}"
         t_after = time.time()
+        if frac is not None:
+            if t_after - frac["T0"] > 0.35:
+                ctx.count("fractional_age_cases_skipped_slow")   # the entry may have crossed the deadline meanwhile: no verdict
+                return
+            ctx.count("fractional_age_limit_cases")
         desc = dict(entries=sorted((round(ages[p], 1), inv[p][0]) for p in inv), limits=[bl, il, age])
         if err:
             ctx.violation("reduce_size-raises", f"reduce_size raised {err} on {desc}", desc)
